@@ -365,13 +365,15 @@ def firstKeyI32 : Val → Option Int
 def blockStarts : List Nat → List Nat
   | cs => (cs.foldl (fun (acc : List Nat × Nat) c => (acc.1 ++ [acc.2], acc.2 + c)) ([], 0)).1
 
-/-- the loop of start_rowid over `(first_rowid, first_val)`; `none` first_val = decode panics.
+/-- the loop of start_rowid over `(first_rowid, first_val)`; `none` first_val = fewer than 4 bytes
+recorded (NULL / short / no first key: `record_first_key = false`): since fix 17cc00b the walk
+stops there (it used to panic in the i32 decode).
 Since fix 68084af the walk stops at the first block whose first key is >= the begin key (it was
 `>`: rows equal to an Included begin key at the end of the previous block were skipped). -/
 def startWalk (begin : Int) : List (Nat × Option Int) → Nat → Out Nat
   | [], pre => .ok pre
   | (rid, some fv) :: rest, pre => if fv ≥ begin then .ok pre else startWalk begin rest rid
-  | (_, none) :: _, _ => .panic "start_rowid:first-key-decode"
+  | (_, none) :: _, pre => .ok pre
 
 /-- disk_rowset.rs start_rowid: no begin key → 0; Int32 begin key → walk over COLUMN 0's block
 index; any other begin-key type → panic. -/
